@@ -168,6 +168,51 @@ def check(run):
             q = list(vals)
             req.append(wb.to_wire(q))
             pend.append((wb, q, vals, case))
+        # ---- several unresolvable items in ONE formula, each intercepted on its own -----------------------------------------
+        for k in range(20 if quick else 400):
+            wb = bookgen.WB()
+            wb.sheets.append(('b1.xlsx', 'S1'))
+            wb.cells[(0, 1, 1)] = ('v', 2)
+            kinds = [rnd.choice(['noname', 'nosheet', 'nobook', 'nofunc']) for _ in range(rnd.randint(2, 3))]
+            if rnd.random() < 0.6:
+                kinds = [kinds[0]] * len(kinds)          # several items of one kind
+            terms, i = [], 0
+            for kd in kinds:
+                i += 1
+                if kd == 'noname':
+                    node = ('raw', "'[b1.xlsx]'!NONAME%d" % i, 'NONAME%d' % i, ['L', 'x#REF!'])
+                elif kd == 'nosheet':
+                    node = ('raw', "'[b1.xlsx]NOSHEET%d'!A1" % i, 'NoSheet%d!A1' % i, ['L', 'x#REF!'])
+                elif kd == 'nobook':
+                    node = ('raw', "'[nofile%d.xlsx]S1'!A1" % i, '#REF!', ['L', 'x#REF!'])
+                else:
+                    node = ('raw', 'NOFUNC%d(1)' % i, 'NOFUNC%d(1)' % i, ['L', 'x#NAME?'])
+                wrap = rnd.choice(['ISERROR', 'IFERROR'])
+                terms.append(('call', 'ISERROR', [node]) if wrap == 'ISERROR' else ('call', 'IFERROR', [node, ('lit', 10 * i)]))
+            if 'nofunc' in kinds:
+                continue        # an unknown function makes the whole cell #NAME? (C14 statement: the cell, not the operand)
+            e = terms[0]
+            for t in terms[1:]:
+                e = ('bin', '+', e, t)
+            wb.cells[(0, 1, 2)] = ('f', ('bin', '+', e, ('ref', (0, 1, 1, 1, 1))))
+            case = {'faults': kinds, 'stream': 'several-in-one-formula', 'workbook': {k_: str(v) for k_, v in wb.to_dict().items()}}
+            run.count(1, json.dumps(case['workbook'], sort_keys=True), True, 'several-faults-one-formula')
+            dd = os.path.join(tmp, 'm%d' % k)
+            os.makedirs(dd)
+            cwd = os.getcwd()
+            try:
+                os.chdir(dd)
+                m = bookrun.ExcelModel().from_dict(wb.to_dict(explicit_blanks=True)).finish()
+                vals = bookrun.solution_values(wb, m.calculate())
+            except Exception as ex:
+                run.violation('several unresolvable items in one formula: raised %s: %s' % (type(ex).__name__, str(ex)[:100]), case)
+                continue
+            finally:
+                os.chdir(cwd)
+                shutil.rmtree(dd, ignore_errors=True)
+            q = list(vals)
+            req.append(wb.to_wire(q))
+            pend.append((wb, q, vals, case))
     finally:
         shutil.rmtree(tmp, ignore_errors=True)
     answers = model(req)
